@@ -31,7 +31,9 @@ HERE = os.path.dirname(os.path.abspath(__file__))
 ROOT = os.path.normpath(os.path.join(HERE, '..'))
 LEAN_DIR = os.path.join(ROOT, 'lean')
 sys.path.insert(0, HERE)
-sys.path.insert(0, '/repo/src')
+REPO = os.environ.get('RSA_REPO', '/repo')
+os.environ.setdefault('RSA_REPO_SRC', os.path.join(REPO, 'src', 'rsatoolbox'))
+sys.path.insert(0, os.path.join(REPO, 'src'))
 
 import py2lean  # noqa: E402
 import lean as leanio  # noqa: E402
@@ -300,6 +302,8 @@ def run(prop, tier, seed, replay=None, max_cases=None):
 
     unexplained = []
     seen_fail_keys = set()
+    if replay and cases and not disagreements:
+        disagreements = [(0, 'replayed case (model and implementation agree)')]
     for i, d in disagreements:
         verdict, info = judge(cases[i], d)
         if verdict == 'infra':
@@ -322,7 +326,7 @@ def run(prop, tier, seed, replay=None, max_cases=None):
                 'property': prop, 'case': case, 'oracle': info, 'correspondence_diff': d,
                 'rerun': f'cd /verif && ./check {prop} --replay <this file>'})
             violations.append((path, ''))
-        else:
+        elif not (replay and d.startswith('replayed case')):
             unexplained.append((i, d))
 
     if (broken or unexplained) and not violations and not replay:
